@@ -1067,6 +1067,95 @@ EXTRAS = [
 
 
 # ----------------------------------------------------------------------------------------------
+# results are NEW objects; escape sequences of string literals
+
+def fresh_result_cases():
+    """A slice of a vector is a new vector, whatever the range: the slice and the receiver are changed independently afterwards and
+    both are shown.  Every vector of 0..4 elements x every integer range that the reference accepts.  Likewise the vectors the
+    string functions hand out (asked twice; the first answer is changed before the second is taken)."""
+    out = []
+    for n in range(0, 5):
+        for b in range(-n - 1, n + 2):
+            for e in range(-n - 1, n + 2):
+                try:
+                    sl = ref_range("vec", n, N(float(b)), N(float(e)))
+                except RefErr:
+                    continue
+                items = list(sl[1])
+                v_after = ("v", tuple(ref_num(i) for i in range(n)) + (("b", True),))
+                w_after = ("v", tuple(items) + (("nil",),))
+                out.append(("{ var v = %s; var w = v[%s..%s]; w.push(nil); v.push(true); out((v, w)); }" % (seq_yl("vec", n), yl_paren(float(b)), yl_paren(float(e))),
+                            ("ok", ("t", (v_after, w_after)))))
+                if items:
+                    w2 = ("v", (("nil",),) + tuple(items[1:]))
+                    out.append(("{ var v = %s; var w = v[%s..%s]; w[0] = nil; out((v, w)); }" % (seq_yl("vec", n), yl_paren(float(b)), yl_paren(float(e))),
+                                ("ok", ("t", (("v", tuple(ref_num(i) for i in range(n))), w2)))))
+                    v2 = ("v", tuple(("nil",) if k == (b % n if b < 0 else b) else ref_num(k) for k in range(n)))
+                    out.append(("{ var v = %s; var w = v[%s..%s]; v[%s] = nil; out((v, w)); }" % (seq_yl("vec", n), yl_paren(float(b)), yl_paren(float(e)), yl_num(float(b))),
+                                ("ok", ("t", (v2, ("v", tuple(items)))))))
+    for recv, call, first in (("a,b", 'split(",")', ("v", (("s", b"a"), ("s", b"b")))), ("ab", "to_bytes()", ("v", (ref_num(97), ref_num(98)))),
+                              ("ab", "to_code_points()", ("v", (ref_num(97), ref_num(98)))), ("", "to_bytes()", ("v", ())),
+                              ("", 'split(",")', ("v", (("s", b""),)))):
+        out.append(('{ var s = "%s"; var x = s.%s; x.push(nil); out(s.%s); }' % (recv, call, call), ("ok", first)))
+    return out
+
+
+U_PAIR_BYTES = [0x00, 0x28, 0x41, 0x7F, 0x80, 0xA9, 0xBF, 0xC0, 0xC1, 0xC2, 0xC3, 0xDF, 0xE0, 0xED, 0xEF, 0xF0, 0xF4, 0xFF]
+U_QUADS = [[0xF0, 0x9F, 0x98, 0x80], [0xF0, 0x90, 0x80, 0x80], [0xF4, 0x8F, 0xBF, 0xBF], [0xF4, 0x90, 0x80, 0x80], [0xF0, 0x80, 0x80, 0x80],
+           [0xF0, 0x8F, 0xBF, 0xBF], [0xE2, 0x82, 0xAC, 0x41], [0x41, 0xE2, 0x82, 0xAC], [0xC3, 0xA9, 0xC3, 0xA9], [0x41, 0x42, 0x43, 0x44],
+           [0x00, 0x00, 0x00, 0x00], [0x7F, 0x7F, 0x7F, 0x7F], [0xED, 0xA0, 0x80, 0x41], [0xED, 0x9F, 0xBF, 0x41], [0xE2, 0x82, 0x41, 0x41],
+           [0xFF, 0xFF, 0xFF, 0xFF], [0xC0, 0x80, 0xC0, 0x80], [0xC2, 0x80, 0xDF, 0xBF], [0x41, 0xC3, 0xA9, 0x42], [0x41, 0x42, 0xC3, 0xA9],
+           [0x41, 0x42, 0x43, 0xC3], [0xF5, 0x80, 0x80, 0x80], [0xEF, 0xBF, 0xBF, 0x0A], [0xE0, 0xA0, 0x80, 0x22], [0xE0, 0x9F, 0xBF, 0x41],
+           [0x24, 0x7B, 0x7D, 0x5C]]
+
+
+def escape_cases():
+    """String literals written with escapes, against the byte-exact reading of scanner.rs: backslash-x HH is the character U+00HH (one
+    byte below 0x80, else the two bytes `C3, HH & BF`), backslash-u HHHH / backslash-U HHHHHHHH are two / four RAW bytes that must form
+    valid UTF-8; anything else is a compile error.  All 256 x-escapes, 18x18 u-pairs over the boundary bytes, 26 U-quadruples; lower-
+    and upper-case digits."""
+    out = []
+
+    def want(bs):
+        try:
+            bytes(bs).decode("utf-8", "strict")
+        except UnicodeDecodeError:
+            return ("compile-error",)
+        return ("ok", ("v", tuple(ref_num(b) for b in bs)))
+    for hh in range(256):
+        bs = [hh] if hh < 0x80 else [0xC3, hh & 0xBF]
+        for text in sorted({"%02x" % hh, "%02X" % hh}):
+            out.append(('out("\\x%s".to_bytes());' % text, want(bs)))
+        out.append(('out("a\\x%02xb".to_bytes());' % hh, want([0x61] + bs + [0x62])))
+    for a in U_PAIR_BYTES:
+        for b in U_PAIR_BYTES:
+            out.append(('out("\\u%02x%02X".to_bytes());' % (a, b), want([a, b])))
+    for q in U_QUADS:
+        out.append(('out("\\U%02x%02x%02X%02X".to_bytes());' % tuple(q), want(q)))
+    return out
+
+
+def run_fixed(ctx, col, cases, cls):
+    """Runs (statement, expectation) pairs whose expectation is computed from the reference rules; returns the number of evaluations."""
+    real = run_statements(ctx.runner, [s for s, _ in cases])
+    for (s, exp), st in zip(cases, real):
+        if exp[0] == "compile-error":
+            ok = isinstance(st, dict) and st.get("status") == "err" and st.get("kind") == "CompileError"
+            shown = json.dumps(st)[:300]
+        else:
+            ans, viol = canon_real_step(st)
+            hard = [v for v in viol if v != "output-before-error"]
+            ok = not hard and ans[0] == "ok" and ans[1] == exp[1]
+            shown = show_answer(ans)
+        if not ok:
+            col.add({"request": None, "program": program_of(s), "statement": s, "route": "step", "real": shown,
+                     "expected": "compile error" if exp[0] == "compile-error" else show_answer(exp), "reference": None, "cls": cls,
+                     "what": "%s: `%s` gives %s, the reference rules give %s" % (cls, s, shown, "a compile error" if exp[0] == "compile-error" else show_answer(exp)),
+                     "signature": cls, "failing_input": True})
+    return len(cases)
+
+
+# ----------------------------------------------------------------------------------------------
 # running
 
 def run_cases(runner, case_lines, timeout=900):
@@ -1311,6 +1400,11 @@ def correspondence(ctx, model_ok=True):
         account(pseudo, s, real[base + k], expm, None, "step", False)
         account(pseudo, all_stmts[base + len(extras) + k], real[base + len(extras) + k], expm, None, "try/catch", True)
 
+    fresh = fresh_result_cases()
+    escapes = escape_cases()
+    evaluations += run_fixed(ctx, col, fresh, "fresh result")
+    evaluations += run_fixed(ctx, col, escapes, "escape decoding")
+
     if unrecognised:
         ctx.notes.append("C13: %d error message text(s) match no known template (kind still compared): %s" % (
             len(unrecognised), sorted(unrecognised)[:3]))
@@ -1322,7 +1416,9 @@ def correspondence(ctx, model_ok=True):
                 "and {0.5,-0,NaN,+-inf,+-2^63,2^53+1,-1.5} for index / all integer pairs + special pairs for ranges, vec and "
                 "tuple of every length 0..%d (+300), vec assignment, every String native x (all strings of <= 2 characters + "
                 "own substrings + seeded 3-character strings) x starts/arguments, wrong types and arities, static constructors "
-                "over all single bytes, %s byte pairs and every malformed-UTF-8 class; non-trivial = distinct request whose "
+                "over all single bytes, %s byte pairs and every malformed-UTF-8 class; every accepted slice of every vector of <= 4 elements is changed "
+                "independently of its receiver (results are new objects); every x-escape and boundary u/U escapes of string "
+                "literals against the byte-exact reading; non-trivial = distinct request whose "
                 "receiver (or constructor input) is non-empty, or whose numeric argument is special or a boundary "
                 "(0, +-len, +-(len+-1)); every request is also sent to a pure-Python byte reference where one exists"
                 % (3 if ctx.thorough else 2, 12 if ctx.thorough else 8, "all 65536" if ctx.thorough else "boundary"),
@@ -1335,6 +1431,8 @@ def correspondence(ctx, model_ok=True):
         "unsupported_note": "to_num and String.from(number/vec/other) need the number text model (C19); run for the oracle only",
         "through_try_catch": len(caught_idx) + len(extras),
         "fixed_expectation_extras": len(extras),
+        "fresh_result_cases": len(fresh),
+        "escape_cases": len(escapes),
         "reference_covered": ref_covered,
         "unrecognised_messages": len(unrecognised),
         "failures_by_signature": dict(sorted(col.by_sig.items())),
